@@ -1,5 +1,6 @@
 """Structural rules of the group layer: adder special cases, equality truth table, affine conversion, validated
 constructor, scalar multiplication shape (C04, C05, C09, C15)."""
+import re
 from core.report import Rule
 from core.facts import FactsError
 from core.absexec import AbsExec, Adt, Tup, Ref, TOP, Frame
@@ -677,7 +678,23 @@ def rules_c09(prop, repo):
                         todo.append(c["inst"])
         cb = F.bodies.get(tgt) if tgt else None
         if cb is None:
-            R.fail_closed("%s:check_order:%s" % (prop, params), "check_order for %s not resolved" % params)
+            # the flag as an associated const of the parameter trait (`P::CHECK_ORDER`): the one bool-typed trait const the
+            # constructor (or a phase of it) reads, at the value this parameter set gives it
+            import json as _json
+            flags = set()
+            for iname in seen:
+                ib = F.bodies.get((F.instances.get(iname) or {}).get("def"))
+                if ib is None:
+                    continue
+                for blk in ib.blocks:
+                    for m_ in re.finditer(r'"ty": "bool", "uneval_def": "([^"<][^"]*)"', _json.dumps(blk)):
+                        flags.add(m_.group(1))
+            val = F.trait_const_in_instance(next(iter(flags)), "crate::groups::AffineG::<%s>::new" % params) if len(flags) == 1 else None
+            if val is None:
+                R.fail_closed("%s:check_order:%s" % (prop, params), "check_order for %s not resolved" % params)
+                continue
+            R.check(bool(val) == want, "%s:check_order:%s" % (prop, params), "%s gives %s = %s; expected %s" % (params, next(iter(flags)), bool(val), want), b.file_line(), b.rec["path"],
+                    sample={"params": params, "check_order": bool(val), "resolved_to": "associated const %s" % next(iter(flags))})
             continue
         rv = repo.tb(cb).return_value()
         val = rv[1].get("int") if rv[0] == "const" else None
